@@ -936,7 +936,7 @@ pub fn run_c23(ctx: &Ctx) -> i32 {
     ctx.assume("library API only (TestWorkspace + Workspace::load per snapshot); the hooked CLI workload of DESIGN is not part of this engine");
     ctx.assume(".gitignore is always a regular file; pattern lines restricted to name, dir/, *.ext, /name, /dir/, and their negations");
     ctx.assume("same-size rewrites bump the mtime monotonically in logical time (>= the forced state-file mtime); an edit that keeps an older mtime is outside the property");
-    let n = ctx.tier().pick(2_000, 150_000);
+    let n = ctx.tier().pick(4_000, 150_000);
     par_cases(ctx, n, threads(), |i, cs, rng| {
         let case = if i == 0 { directed_case23() } else { gen_case23(rng) };
         let mut seen = Seen23::default();
@@ -1138,7 +1138,7 @@ fn run_case26(ctx: &Ctx, case: &Case26, rng: &mut Rng, nontrivial: &mut bool) ->
 pub fn run_c26(ctx: &Ctx) -> i32 {
     let window = ctx.tier().pick(7, 10);
     let free_running = ctx.tier().pick(32, 128);
-    let rounds = ctx.tier().pick(25, 200);
+    let rounds = ctx.tier().pick(75, 200);
     ctx.set_rule(
         "Forced timestamps: for each granularity g (1 ms, 10 ms, 1 s, 2 s, and unfloored sub-ms steps) and every \
          integer triple with t_write <= t_edit and t_save <= t_edit in the window (t_save before, at or after \
@@ -1544,7 +1544,7 @@ pub fn run_c27(ctx: &Ctx) -> i32 {
     );
     ctx.assume("a snapshot always precedes set_sparse_patterns (CLI behaviour); un-snapshotted edits to leaving files are outside the property");
     ctx.assume("new files inside the patterns that would need a directory where a hidden tracked file lives are removed by the harness before snapshotting (the property does not define that case)");
-    let n = ctx.tier().pick(1_500, 100_000);
+    let n = ctx.tier().pick(4_500, 100_000);
     par_cases(ctx, n, threads(), |i, cs, rng| {
         let case = gen_case27(rng);
         let mut seen = Seen27::default();
